@@ -197,12 +197,30 @@ def check(ctx):
         env = {self_: me}
         if ast.unparse(inner.args[0]) != self_ + ".array":
             probs.append(("operand", ast.unparse(inner.args[0]), "self.array"))
-        rng = ev.ev(inner.args[1], env)
+        src_e, tgt_e, inverted = inner.args[1], inner.args[2], False
+        if isinstance(src_e, ast.ListComp) and not isinstance(tgt_e, ast.ListComp):
+            src_e, tgt_e, inverted = tgt_e, src_e, True          # moveaxis(a, <piecewise list>, range): the inverse permutation
+        rng = ev.ev(src_e, env)
         seg = rng.parts[0] if isinstance(rng, Seq) and rng.parts else None
         if seg is None or not (ev.facts.eq(seg.atom.elem(Lin.of(0)), 0) and ev.facts.eq(seg.atom.length, a + b)):
             probs.append(("source", rng, "all axes"))
-        moved = block_map(ev, inner.args[2], env, [("d", Lin.of(0), a), ("c", a, b)])
-        order = layout_after(moved, ev.facts)
+        old_blocks = [("d", Lin.of(0), a), ("c", a, b)]
+        if not inverted:
+            moved = block_map(ev, tgt_e, env, old_blocks)
+            order = layout_after(moved, ev.facts)
+        else:
+            # the list gives, for each NEW position, the OLD axis placed there: evaluate it on the blocks of the required layout [c d]
+            img = block_map(ev, tgt_e, env, [("c", Lin.of(0), b), ("d", b, a)])
+            order = []
+            for (lab, st, w) in img:
+                hit = [ol for (ol, os_, ow) in old_blocks if ev.facts.eq(os_, st) and ev.facts.eq(ow, w)]
+                if ev.facts.zero(w):
+                    order.append(lab)
+                elif not hit:
+                    raise Unlocatable("the positions of the new block %s are filled from old axes starting at %r, which is not the start of a block of that width "
+                                      "(the index list is read as sources: the inverse rotation)" % (lab, st))
+                else:
+                    order.append(hit[0] if hit[0] == lab else "%s<-%s" % (lab, hit[0]))
         if order != ["c", "d"]:
             probs.append(("order", order, ["c", "d"]))
     except Unlocatable as e:
